@@ -49,6 +49,7 @@ type worker[T any, JobType iJob[T]] struct {
 	errorChan       chan error
 	waiters         *sync.Cond
 	tickers         []*time.Ticker
+	tickerStops     []chan struct{}
 	mx              sync.RWMutex
 	ctx             context.Context
 	cancel          context.CancelFunc
@@ -380,12 +381,22 @@ func (w *worker[T, JobType]) goRemoveIdleWorkers() {
 	}
 
 	ticker := time.NewTicker(interval)
+	// ticker.Stop does not close ticker.C, so the goroutine needs its own
+	// signal to exit when the run ends
+	done := make(chan struct{})
 	w.mx.Lock()
 	w.tickers = append(w.tickers, ticker)
+	w.tickerStops = append(w.tickerStops, done)
 	w.mx.Unlock()
 
 	go func() {
-		for range ticker.C {
+		for {
+			select {
+			case <-done:
+				return
+			case <-ticker.C:
+			}
+
 			// Calculate the target number of idle workers
 			targetIdleWorkers := w.numMinIdleWorkers()
 
@@ -456,7 +467,12 @@ func (w *worker[T, JobType]) stopTickers() {
 		ticker.Stop()
 	}
 
+	for _, done := range w.tickerStops {
+		close(done)
+	}
+
 	w.tickers = make([]*time.Ticker, 0)
+	w.tickerStops = nil
 }
 
 func (w *worker[T, JobType]) closeChannels() {
